@@ -64,6 +64,10 @@ def value_to_spec(world, v):
     return ['ref', full.split('.'), scopes, 'call' if v[2] else 'bare']
   if isinstance(v, tuple) and len(v) == 2 and v[0] == '%':
     return ['ref', ['gin', 'macro'], v[1].split('/'), 'call']
+  from ginverif import adapter_core
+  k = adapter_core._vkey(v)
+  if k in world.lit_ids:
+    return ['lit', world.lit_ids[k]]
   if isinstance(v, str):
     return ['lit', v]
   if isinstance(v, list):
